@@ -72,15 +72,67 @@ def canon_text(ctx, qual, text):
     return prefix + out
 
 
+_SCALAR = (ast.Attribute, ast.Name, ast.Constant, ast.BinOp, ast.BoolOp, ast.Compare, ast.UnaryOp, ast.Subscript, ast.IfExp,
+           ast.operator, ast.boolop, ast.cmpop, ast.unaryop, ast.expr_context, ast.Slice)
+
+
+def _inline_temporaries(ctx, fi, stmt, raw):
+    """Text of a simple statement with every local that is, at this statement, the result of exactly one plain
+    `name = <expression without calls>` replaced by that expression: `x = a.b; f(x)` and `f(a.b)`, or
+    `late = off > 0; g(k=late)` and `g(k=off > 0)`, get the same key, so a finding (and a reviewed entry) follows the
+    statement through "introduce a temporary" / "inline a temporary"."""
+    import copy
+    from .. import expand as ex
+    if not isinstance(stmt, (ast.Expr, ast.Assign, ast.AugAssign, ast.Return)) or getattr(stmt, 'value', None) is None:
+        return raw
+    try:
+        g, RD = ex._rd(ctx, fi)
+    except Exception:
+        return raw
+    changed = []
+
+    def inline(expr, at, depth=0):
+        node = g.node_of(at)
+        if node is None or depth > 6:
+            return expr
+        bynm = {}
+        for nm, d in (RD.get(node.id) or frozenset()):
+            bynm.setdefault(nm, set()).add(d)
+
+        class T(ast.NodeTransformer):
+            def visit_Name(self, n):
+                if not isinstance(n.ctx, ast.Load):
+                    return n
+                ds = bynm.get(n.id)
+                if not ds or len(ds) != 1:
+                    return n
+                dn = g.nodes[next(iter(ds))]
+                st = dn.stmt
+                if dn.kind == 'stmt' and isinstance(st, ast.Assign) and len(st.targets) == 1 and isinstance(st.targets[0], ast.Name) and \
+                        st.targets[0].id == n.id and st is not at and not isinstance(st.value, (ast.Name, ast.Constant)) and \
+                        all(isinstance(x, _SCALAR) for x in ast.walk(st.value)):
+                    changed.append(n.id)
+                    return inline(copy.deepcopy(st.value), st, depth + 1)
+                return n
+        return T().visit(expr)
+    new = copy.deepcopy(stmt)
+    new.value = inline(new.value, stmt)
+    if not changed:
+        return raw
+    try:
+        return ast.unparse(ast.fix_missing_locations(new))[:240]
+    except Exception:
+        return raw
+
+
 def canon_key(ctx, qual, text, lineno=0):
     """canon_text plus, when several statements of the function have the same canonical text (the ISO9660 / Joliet /
     UDF variants of one step differ only in the variable they act on), the ordinal of this one among them in source
     order: `v0 += self._add_child_to_dr(v1)#1`."""
     from ..model import stmt_head
     fi = ctx.m.functions.get(qual)
-    ct = canon_text(ctx, qual, text)
     if fi is None:
-        return ct
+        return canon_text(ctx, qual, text)
     cache = getattr(ctx, '_canon_stmts', None)
     if cache is None:
         cache = ctx._canon_stmts = {}
@@ -89,9 +141,16 @@ def canon_key(ctx, qual, text, lineno=0):
         for n in ctx.own_nodes(fi):
             if isinstance(n, ast.stmt) and not isinstance(n, (ast.FunctionDef, ast.ClassDef)):
                 raw = stmt_head(n)[:240]
-                lst.append((n.lineno, n.col_offset, raw, canon_text(ctx, qual, raw)))
+                lst.append((n.lineno, n.col_offset, raw, canon_text(ctx, qual, _inline_temporaries(ctx, fi, n, raw))))
         lst.sort()
         cache[qual] = lst
+    ct = None
+    for (l, _c, raw, c) in cache[qual]:
+        if raw == text and (not lineno or l == lineno):
+            ct = c
+            break
+    if ct is None:
+        ct = canon_text(ctx, qual, text)
     same = [(l, raw) for (l, _c, raw, c) in cache[qual] if c == ct]
     if len(same) > 1:
         # ordinal by position among the statements with this canonical text; the statement meant is the one at
@@ -251,6 +310,142 @@ def _runs_whenever(ctx, f, v, t):
     return False
 
 
+def _param_slice(ctx, f, st, vals=None):
+    """parameters of f in the backward slice of the statement st (through plain, tuple and augmented assignments);
+    `vals` restricts the slice to these sub-expressions of st"""
+    from .. import expand as ex
+    params = set(p.lstrip('*') for p in f.params) - {'self'}
+    out = set()
+    if vals is None:
+        vals = [x for x in ast.iter_child_nodes(st) if isinstance(x, ast.expr)]
+    seen = set()
+    work = list(vals)
+    gg, RD = ex._rd(ctx, f)
+    node = gg.node_of(st)
+    reach = (RD.get(node.id) if node is not None else None) or frozenset()
+    while work:
+        x = work.pop()
+        for sub in ast.walk(x):
+            if isinstance(sub, ast.Name) and isinstance(sub.ctx, ast.Load):
+                if sub.id in params:
+                    out.add(sub.id)
+                if sub.id in seen:
+                    continue
+                seen.add(sub.id)
+                for nm, dnid in reach:
+                    if nm == sub.id:
+                        ds = gg.nodes[dnid].stmt
+                        if isinstance(ds, (ast.Assign, ast.AugAssign)) and ds is not st:
+                            work.append(ds.value)
+                # an object filled in by its own methods (`rec.new_file(vd, 0, name, parent, ...)`) depends on their arguments
+                for c in ctx.own_nodes(f):
+                    if isinstance(c, ast.Call) and isinstance(c.func, ast.Attribute) and isinstance(c.func.value, ast.Name) and \
+                            c.func.value.id == sub.id and sub.id != 'self' and c.lineno < st.lineno and any(nm == sub.id for nm, _d in reach):
+                        work.extend(c.args)
+                        work.extend(k.value for k in c.keywords)
+    return out
+
+
+def _flow_insensitive_params(ctx, cal, seeds):
+    """parameters of cal that the seed nodes may depend on: through every assignment to a local name anywhere in cal,
+    every store to an attribute of self that is read, the arguments of method calls on a local in the slice (the
+    object is filled in by them) and loop / with targets.  Deliberately coarse: a parameter too many only makes the
+    caller's pre-validation harder to accept."""
+    params = set(p.lstrip('*') for p in cal.params) - {'self'}
+    out = set()
+    seen_n, seen_a = set(), set()
+    work = list(seeds)
+    nodes = list(ctx.own_nodes(cal))
+    while work:
+        x = work.pop()
+        for sub in ast.walk(x):
+            if isinstance(sub, ast.Name) and isinstance(sub.ctx, ast.Load) and sub.id != 'self':
+                if sub.id in params:
+                    out.add(sub.id)
+                if sub.id in seen_n:
+                    continue
+                seen_n.add(sub.id)
+                for n in nodes:
+                    if isinstance(n, (ast.Assign, ast.AugAssign, ast.AnnAssign)):
+                        tg = n.targets if isinstance(n, ast.Assign) else [n.target]
+                        if any(sub.id in cfgmod.target_names(t) for t in tg) and n.value is not None:
+                            work.append(n.value)
+                    elif isinstance(n, (ast.For, ast.comprehension)) and sub.id in cfgmod.target_names(n.target):
+                        work.append(n.iter)
+                    elif isinstance(n, ast.With):
+                        for it in n.items:
+                            if it.optional_vars is not None and sub.id in cfgmod.target_names(it.optional_vars):
+                                work.append(it.context_expr)
+                    elif isinstance(n, ast.Call) and isinstance(n.func, ast.Attribute) and isinstance(n.func.value, ast.Name) and n.func.value.id == sub.id:
+                        work.extend(n.args)
+                        work.extend(k.value for k in n.keywords)
+            elif isinstance(sub, ast.Attribute) and isinstance(sub.value, ast.Name) and sub.value.id == 'self' and isinstance(sub.ctx, ast.Load):
+                if sub.attr in seen_a:
+                    continue
+                seen_a.add(sub.attr)
+                for n in nodes:
+                    if isinstance(n, (ast.Assign, ast.AugAssign)):
+                        tg = n.targets if isinstance(n, ast.Assign) else [n.target]
+                        for t in tg:
+                            for tt in ast.walk(t):
+                                if isinstance(tt, ast.Attribute) and tt.attr == sub.attr and isinstance(tt.value, ast.Name) and tt.value.id == 'self':
+                                    work.append(n.value)
+    return out
+
+
+def _refusal_relevant_args(ctx, engine, f, st):
+    """st is `... = recv.helper(a0, a1, ...)` with one package callee: the sub-expressions of st that can influence
+    whether the helper refuses - the receiver and the arguments bound to those parameters of the helper that its
+    own refusing statements (raise statements of the tracked class, calls of functions that may raise it, and the
+    tests they sit under) depend on.  None when the call cannot be mapped (then the whole statement counts)."""
+    from .. import expand as ex
+    from ..engine import raises_class
+    val = st.value if isinstance(st, (ast.Assign, ast.AugAssign, ast.Expr)) else None
+    if not isinstance(val, ast.Call) or any(isinstance(a, ast.Starred) for a in val.args) or any(k.arg is None for k in val.keywords):
+        return None
+    cs, kind = ctx.t._resolve(val, f)
+    if kind not in ('func', 'method') or not cs or len(cs) != 1 or cs[0].qual not in engine.summ:
+        return None
+    cal = cs[0]
+    cparams = [p for p in cal.params]
+    if any(p.startswith('*') for p in cparams):
+        return None
+    if cal.cls is not None and cparams and cparams[0] == 'self':
+        cparams = cparams[1:]
+    seeds = []
+    found = False
+    for n in ctx.own_nodes(cal):
+        if not isinstance(n, ast.stmt) or isinstance(n, (ast.FunctionDef, ast.ClassDef)):
+            continue
+        refuses = isinstance(n, ast.Raise) and raises_class(n) == 'PyCdlibInvalidInput'
+        if not refuses and isinstance(n, (ast.Expr, ast.Assign, ast.AugAssign, ast.Return)):
+            for c in ast.walk(n):
+                if isinstance(c, ast.Call):
+                    cs2, k2 = ctx.t._resolve(c, cal)
+                    for c2 in (cs2 or ()) if k2 in ('func', 'method') else ():
+                        if hasattr(c2, 'qual') and c2.qual in engine.summ and engine.summ[c2.qual][1]:
+                            refuses = True
+        if not refuses:
+            continue
+        found = True
+        seeds.append(n)
+        for test, _pol, _at in ex.conditions(ctx, cal, n, True):
+            seeds.append(test)
+    rel = _flow_insensitive_params(ctx, cal, seeds)
+    if not found:
+        return None
+    vals = []
+    if isinstance(val.func, ast.Attribute):
+        vals.append(val.func.value)
+    for i, a in enumerate(val.args):
+        if i >= len(cparams) or cparams[i] in rel:
+            vals.append(a)
+    for k in val.keywords:
+        if k.arg in rel or k.arg not in cparams:
+            vals.append(k.value)
+    return vals
+
+
 def _covered_by_earlier_refusals(ctx, engine, f, canon_stmt, sites):
     """If every raise site of the finding is also raised by statements of f that dominate the refusing statement and
     run before the first change - the same site, or the site of the same message in the query twin of an insert
@@ -272,39 +467,8 @@ def _covered_by_earlier_refusals(ctx, engine, f, canon_stmt, sites):
     for key, roots, origin in engine.summ[f.qual][1]:
         if roots and origin is not None and origin[0] == f.qual:
             late.add(origin[3])
-    params = set(p.lstrip('*') for p in f.params) - {'self'}
-
-    def pnames(st):
-        # parameters of f in the backward slice of the statement (through plain, tuple and augmented assignments)
-        from .cache import _slice
-        out = set()
-        vals = [x for x in ast.iter_child_nodes(st) if isinstance(x, ast.expr)]
-        seen = set()
-        work = list(vals)
-        gg, RD = ex._rd(ctx, f)
-        node = gg.node_of(st)
-        reach = (RD.get(node.id) if node is not None else None) or frozenset()
-        while work:
-            x = work.pop()
-            for sub in ast.walk(x):
-                if isinstance(sub, ast.Name) and isinstance(sub.ctx, ast.Load):
-                    if sub.id in params:
-                        out.add(sub.id)
-                    if sub.id in seen:
-                        continue
-                    seen.add(sub.id)
-                    for nm, dnid in reach:
-                        if nm == sub.id:
-                            ds = gg.nodes[dnid].stmt
-                            if isinstance(ds, (ast.Assign, ast.AugAssign)) and ds is not st:
-                                work.append(ds.value)
-                    # an object filled in by its own methods (`rec.new_file(vd, 0, name, parent, ...)`) depends on their arguments
-                    for c in ctx.own_nodes(f):
-                        if isinstance(c, ast.Call) and isinstance(c.func, ast.Attribute) and isinstance(c.func.value, ast.Name) and \
-                                c.func.value.id == sub.id and sub.id != 'self' and c.lineno < st.lineno and any(nm == sub.id for nm, _d in reach):
-                            work.extend(c.args)
-                            work.extend(k.value for k in c.keywords)
-        return out
+    def pnames(st, vals=None):
+        return _param_slice(ctx, f, st, vals)
     covered = {}
     for n in ctx.own_nodes(f):
         if not isinstance(n, ast.stmt) or isinstance(n, (ast.FunctionDef, ast.ClassDef)) or n is t or n.lineno in late:
@@ -343,7 +507,7 @@ def _covered_by_earlier_refusals(ctx, engine, f, canon_stmt, sites):
         if not hit:
             return None
         used |= hit
-    need = pnames(t)
+    need = pnames(t, _refusal_relevant_args(ctx, engine, f, t))
     have = set()
     for n in used:
         have |= pnames(n)
@@ -377,6 +541,24 @@ def query_twin(ctx):
             obs.append(Ob('SA-SIB.query_twin', '%s|%s' % (qry, str(m)[:60]), ok, ctx.loc(fi, node),
                           '' if ok else '%s refuses with %r but %s, which callers use to ask before they change anything, does not: that refusal still arrives '
                           'after the first change' % (ins, m, qry)))
+        # a refusal the query finds by scanning (the raise sits in a loop: the clashing entry need not be the first of
+        # its name) is found by scanning in the insertion as well - an insertion that looks at one position only
+        # accepts what the query, and the documentation, refuse
+        def in_loop(fn, node):
+            par = ctx.parents(fn)
+            cur = node
+            while cur is not None and cur is not fn.node:
+                cur = par.get(id(cur))
+                if isinstance(cur, (ast.For, ast.While)):
+                    return True
+            return False
+        for m, node in sorted(mi.items(), key=lambda x: str(x[0])):
+            if m in mq and in_loop(fq, mq[m]):
+                ok = in_loop(fi, node)
+                obs.append(Ob('SA-SIB.query_twin', '%s|%s|found by scanning in both' % (ins, str(m)[:60]), ok, ctx.loc(fi, node),
+                              '' if ok else '%s looks for the entry behind %r in a loop, %s tests a single position: the entries of one name are not all alike (a relocated '
+                              'directory, an associated file or a further extent may come first), so a clash behind the first entry is accepted by the insertion'
+                              % (qry, m, ins)))
         # a linear scan that looks for a clashing entry has to see every entry: no break / return inside a loop of the
         # query method whose body holds a refusal (the insert method may stop early because it starts at a bisected
         # position; the query starts at the beginning)
